@@ -419,6 +419,15 @@ func run(c *vf.Ctx) {
 		}
 		check("stmt:"+kind, "stmt:"+kind, f)
 	})
+	skipped := typeTrees(c.Thorough(), func(kind, src string, f *ast.File) {
+		if !c.Mine() {
+			return
+		}
+		check(kind, kind+":"+strings.TrimSpace(strings.TrimPrefix(src, "package p")), f)
+	})
+	if c.Idx == 0 {
+		c.Tally("type_trees_not_valid_syntax_skipped", skipped)
+	}
 	// corpus
 	pkgs := corpusPkgs
 	if c.Thorough() {
